@@ -518,14 +518,23 @@ impl Prop for C08 {
         let mut seq = gen_seq_case(rng, size, None);
         crate::gen::maybe_reverse_empty(rng, &mut seq);
         // very rarely: a differing middle of more than 2^24 cells (LCS)
-        if rng.below(if tier == Tier::Quick { 12_000 } else { 30_000 }) == 0 {
-            let (o, n) = crate::gen::gen_many_cells(rng);
+        if rng.below(if tier == Tier::Quick { 6_000 } else { 20_000 }) == 0 {
+            let composite = rng.chance(1, 2);
+            let (o, n) = if composite {
+                crate::gen::gen_composite(rng)
+            } else {
+                crate::gen::gen_many_cells(rng)
+            };
             seq.old_range = (0, o.len());
             seq.new_range = (0, n.len());
             seq.old = o;
             seq.new = n;
             seq.index = crate::gen::IndexKind::Slice;
-            seq.alg = crate::gen::Alg::Lcs;
+            seq.alg = if composite {
+                *rng.pick(&[crate::gen::Alg::Myers, crate::gen::Alg::Patience])
+            } else {
+                crate::gen::Alg::Lcs
+            };
         }
         let stack = *rng.pick(&STACKS);
         let expire_at = if seq.old.len() > 4000 {
